@@ -228,6 +228,16 @@ func originsOpt(v ssa.Value, keepMakeIface bool) []ssa.Value {
 			out = append(out, v)
 		case *ssa.UnOp:
 			if x.Op == token.MUL {
+				// a field of a struct-typed parameter (arguments bundled into a struct): the
+				// corresponding field of the literal built at every production call site
+				if fa, ok := x.X.(*ssa.FieldAddr); ok {
+					if more := structParamFieldOrigins(fa); more != nil {
+						for _, m := range more {
+							walk(m)
+						}
+						return
+					}
+				}
 				// `p.f = v; ... p.f` within one block: the field holds v
 				if fa, ok := x.X.(*ssa.FieldAddr); ok && x.Block() != nil {
 					blk := x.Block()
